@@ -132,6 +132,8 @@ def occurrences_outside_cached_materializations(rel):
 
 
 def run_case(case):
+    import lsst.daf.relation as R
+
     out = {"counters": {}, "violations": []}
     c = out["counters"]
     prog = case["prog"]
@@ -143,7 +145,7 @@ def run_case(case):
         out["skip"] = s.reason
         return out
     engines = make_engines(("it", "it2"))
-    b = Builder(case["leaves"], engines, counting=True)
+    b = Builder(case["leaves"], engines, counting="with_mappings")
     try:
         rel = b.build(prog)
     except BuildFailure as f:
@@ -151,11 +153,26 @@ def run_case(case):
         return out
     occ = occurrences(rel)
     from .. import interp
+    from ..dbx import CountingMapping
+
+    # a deduplication directly over a RowMapping leaf returns the payload itself when its key is the
+    # mapping's own key (an implementation detail of which tuple order the engine asks for): for such
+    # leaves the iteration counts are not asserted, only the rows
+    lenient = set()
+    for n in interp.walk(rel):
+        if isinstance(n, R.UnaryOperationRelation) and isinstance(n.operation, R.Deduplication):
+            t = n.target
+            while isinstance(t, R.MarkerRelation) and t.payload is None:
+                t = t.target
+            if isinstance(t, R.LeafRelation) and isinstance(t.payload, CountingMapping):
+                lenient.add(t.name)
+    if any(isinstance(p, CountingMapping) for p in b.leaf_payloads.values()):
+        c["programs_with_mapping_leaves"] = 1
 
     has_eager = any(consumes_at_execute(n) for n in interp.walk(rel))
 
     def starts():
-        return {name: p.starts for name, p in b.leaf_payloads.items()}
+        return {name: p.starts for name, p in b.leaf_payloads.items() if name not in lenient}
 
     def delta(a, b2):
         return {k: b2[k] - a.get(k, 0) for k in b2}
